@@ -733,6 +733,12 @@ pub struct Focus {
     pub max_ttl_secs: u64,
     /// EDGE: draw weights and TTLs at type / arithmetic boundaries
     pub edge: bool,
+    /// C06: read the estimates before every put (consumer idle) and judge the decision events
+    pub check_admission: bool,
+    /// C14: mirror the sketch and compare after every step
+    pub mirror: bool,
+    /// quiesce the consumer before this percentage of puts (so that estimates are current)
+    pub consumer_idle_pct: u64,
 }
 
 impl Focus {
@@ -751,6 +757,9 @@ impl Focus {
             prefer: vec![],
             max_ttl_secs: 86_400 * 365,
             edge: false,
+            check_admission: false,
+            mirror: false,
+            consumer_idle_pct: 0,
         }
     }
 }
@@ -771,6 +780,9 @@ pub struct SeqDriver {
     pub states_hit: BTreeSet<(String, String)>,
     /// hook events of a `Tick` step, carried over to the `AwaitIdle(Sweeper)` step that judges them
     carry: Vec<Hook>,
+    pre_est: PreEstimates,
+    pub mirror: Option<Mirror>,
+    mirror_seq: u64,
 }
 
 impl SeqDriver {
@@ -788,6 +800,9 @@ impl SeqDriver {
             own,
             states_hit: BTreeSet::new(),
             carry: vec![],
+            pre_est: PreEstimates::default(),
+            mirror: None,
+            mirror_seq: 0,
         }
     }
 
@@ -976,20 +991,47 @@ impl SeqDriver {
 }
 
 impl Online for SeqDriver {
+    fn start(&mut self, cache: &Cache) {
+        if self.focus.mirror {
+            self.mirror = Some(Mirror::new(cache, self.model.cfg.counters));
+            self.mirror_seq = exec::seq();
+        }
+    }
+
+    fn before_op(&mut self, op: &Op, cache: &Cache) {
+        self.pre_est = PreEstimates::default();
+        if !self.focus.check_admission {
+            return;
+        }
+        if let Op::Put { key, .. } | Op::Upsert { key, .. } = op {
+            // estimates are only comparable when nothing is in flight towards the sketch
+            simsync::sim::await_idle(simsync::sim::Role::Consumer);
+            for (id, (k, _)) in &self.model.charged {
+                self.pre_est.by_id.insert(*id, cache.verif_estimate(self.model.cfg.hash_of(*k)));
+            }
+            self.pre_est.incoming = Some(cache.verif_estimate(self.model.cfg.hash_of(*key)));
+        }
+    }
+
     fn next_op(&mut self, step: usize) -> Option<Op> {
-        self.last_seq = exec::seq();
         if let Some(prog) = &self.follow {
             return prog.get(step).cloned();
         }
         if let Some(op) = self.queue.pop() {
             return Some(op);
         }
+        if self.focus.consumer_idle_pct > 0 && self.rng.chance(self.focus.consumer_idle_pct, 100) {
+            return Some(Op::AwaitIdle(RoleName::Consumer));
+        }
         // quiesce the consumer now and then so that estimates are up to date (C06 / C14)
         self.generate(step)
     }
 
     fn after_op(&mut self, op: &Op, _step: usize, cache: &Cache) {
+        // everything logged since the previous step was judged (background threads may have logged
+        // events while that step's own observations were being taken)
         let items = exec::items_since(self.last_seq);
+        self.last_seq = exec::seq();
         let mut st = None;
         let mut vals: Vec<Option<u64>> = vec![];
         let mut events = vec![];
@@ -1017,6 +1059,44 @@ impl Online for SeqDriver {
             events = all;
         }
         self.model.apply(op, st, &vals, &events, &mut mis);
+        if self.focus.check_admission {
+            let put_like = match op {
+                Op::Put { key, val, weight, ttl, .. } if !pre.keys.contains_key(key) => {
+                    Some(weight.unwrap_or_else(|| weight_of(&pre.cfg.weight_fn, *key, *val, ttl.is_some())))
+                }
+                Op::Upsert { key, val: Some(v), weight, ttl, .. } if !pre.keys.contains_key(key) => {
+                    Some(weight.unwrap_or_else(|| weight_of(&pre.cfg.weight_fn, *key, *v, ttl.is_some())))
+                }
+                _ => None,
+            };
+            if let Some(w) = put_like {
+                check_admission(w, &events, &pre, &self.pre_est, st, &mut mis);
+            }
+        }
+        if self.mirror.is_some() {
+            simsync::sim::await_idle(simsync::sim::Role::Consumer);
+            let fresh = exec::items_since(self.mirror_seq);
+            self.mirror_seq = exec::seq();
+            let keys = self.model.cfg.keys;
+            let cfgc = self.model.cfg.clone();
+            let m = self.mirror.as_mut().unwrap();
+            for it in &fresh {
+                if let Item::Hook { ev: Hook::BatchApplied { hashes }, .. } = it {
+                    m.batches += 1;
+                    for h in hashes {
+                        m.access(*h);
+                    }
+                }
+            }
+            let mut probes: Vec<u64> = (0..keys).map(|k| cfgc.hash_of(k)).collect();
+            let extra: Vec<u64> = probes.iter().flat_map(|h| [h ^ 1, h.wrapping_add(1), h.wrapping_add(m.counters)]).collect();
+            probes.extend(extra);
+            probes.sort();
+            probes.dedup();
+            for (class, msg) in m.compare(cache, &probes) {
+                mis.push(Mis { aspect: "sketch", class, ctx: format!("counters={}", cfgc.counters), msg });
+            }
+        }
         if let Some(w) = weight_seen {
             if w != self.model.total && self.model.pending.is_empty() {
                 mis.push(Mis { aspect: "weight_used", class: "total-mismatch".into(), ctx: String::new(), msg: format!("total_weight_used() = {}, model {}", w, self.model.total) });
@@ -1052,5 +1132,270 @@ impl Online for SeqDriver {
         for (op, st) in &self.states_hit {
             let _ = (op, st);
         }
+    }
+}
+
+// ------------------------------------------------------------------------------------------------
+// C06: the admission decision, judged from the decision events against the TinyLFU rule
+
+#[derive(Default, Clone, Debug)]
+pub struct PreEstimates {
+    /// key id -> estimate read through the accessor with the consumer idle, just before the put
+    pub by_id: BTreeMap<u64, u8>,
+    pub incoming: Option<u8>,
+}
+
+pub fn check_admission(w: i64, events: &[Hook], pre: &Model, est: &PreEstimates, status: Option<St>, out: &mut Vec<Mis>) {
+    let limit = pre.cfg.weight;
+    let mut push = |class: &str, msg: String| {
+        out.push(Mis { aspect: "admission", class: class.to_string(), ctx: String::new(), msg });
+    };
+    let begin = events.iter().find_map(|e| match e {
+        Hook::AdmissionBegin { space_left, fits, weight, max_weight, .. } => Some((*space_left, *fits, *weight, *max_weight)),
+        _ => None,
+    });
+    let (space_left, fits, ev_w, ev_max) = match begin {
+        Some(b) => b,
+        None => return, // answered before admission (too heavy, or key exists)
+    };
+    if ev_w != w || ev_max != limit {
+        push("event-vs-observed", format!("admission saw weight {} / max {}, the call gave weight {} to a cache of {}", ev_w, ev_max, w, limit));
+    }
+    if space_left != pre.free() {
+        push("event-vs-observed", format!("admission computed free space {}, observed limit - total_weight_used() = {}", space_left, pre.free()));
+    }
+    if fits != (pre.free() >= w) {
+        push("fit-test-wrong", format!("weight {} vs free space {}: admission decided fits = {}", w, pre.free(), fits));
+    }
+    if fits {
+        return; // fast path; status and "nothing evicted" are checked by the model
+    }
+    let incoming = events.iter().find_map(|e| match e {
+        Hook::CreateSpace { incoming, .. } => Some(*incoming),
+        _ => None,
+    });
+    let incoming = match incoming {
+        Some(i) => i,
+        None => {
+            push("no-create-space", "free space insufficient but the eviction loop was not entered".to_string());
+            return;
+        }
+    };
+    if let Some(p) = est.incoming {
+        if p != incoming {
+            push("event-vs-observed", format!("incoming key estimate used {} but estimate() just before (consumer idle) was {}", incoming, p));
+        }
+    }
+    crate::exec::probe_run("c06.create_space_path");
+    let mut charged: BTreeMap<u64, i64> = pre.charged.iter().map(|(id, (_, w))| (*id, *w)).collect();
+    let mut free = pre.free();
+    let mut evicted = 0;
+    let mut rejected_by_rule = false;
+    let mut i = 0;
+    while i < events.len() {
+        if let Hook::Victim { sample, victim, space } = &events[i] {
+            let ids: BTreeSet<u64> = sample.iter().map(|s| s.0).collect();
+            if ids.len() != sample.len() {
+                push("sample-malformed", format!("sample holds duplicates: {:?}", sample));
+            }
+            if let Some(stranger) = sample.iter().find(|s| !charged.contains_key(&s.0)) {
+                push("sample-malformed", format!("sampled id {} is not charged (charged ids {:?})", stranger.0, charged.keys().collect::<Vec<_>>()));
+            }
+            let want = charged.len().min(5);
+            if sample.len() != want {
+                push("sample-malformed", format!("sample of {} keys with {} keys charged (expected {})", sample.len(), charged.len(), want));
+            }
+            if sample.len() < 5 {
+                crate::exec::probe_run("c06.sample_smaller_than_five");
+            }
+            for (id, sw, f) in sample {
+                if let Some(p) = est.by_id.get(id) {
+                    if p != f {
+                        push("event-vs-observed", format!("id {} sampled with estimate {} but estimate() just before was {}", id, f, p));
+                    }
+                }
+                if let Some(cw) = charged.get(id) {
+                    if cw != sw {
+                        push("event-vs-observed", format!("id {} sampled with weight {} but is charged {}", id, sw, cw));
+                    }
+                }
+                if *f >= 15 {
+                    crate::exec::probe_run("c06.saturated_estimate_in_sample");
+                }
+            }
+            if *space != free {
+                push("event-vs-observed", format!("loop saw {} free, model {} after {} evictions", space, free, evicted));
+            }
+            if *space >= w {
+                push("loop-overran", format!("eviction loop took a victim although {} free already suffices for weight {}", space, w));
+            }
+            let min_f = sample.iter().map(|s| s.2).min().unwrap_or(0);
+            if !sample.iter().any(|s| s.0 == victim.0) {
+                push("victim-not-in-sample", format!("victim {:?} is not in the sample {:?}", victim, sample));
+            }
+            if victim.2 != min_f {
+                push("victim-not-min", format!("victim {:?} but the sample {:?} holds a lower estimate {}", victim, sample, min_f));
+            }
+            let tie_heavier = sample.iter().filter(|s| s.2 == min_f).map(|s| s.1).max().unwrap_or(0);
+            if sample.iter().filter(|s| s.2 == min_f).count() > 1 {
+                crate::exec::probe_run("c06.tie_on_minimum_estimate");
+                if victim.1 == tie_heavier {
+                    crate::exec::probe_run("c06.tie_broken_heavier_first");
+                }
+            }
+            let was_evicted = matches!(events.get(i + 1), Some(Hook::Evicted { id }) if *id == victim.0);
+            let should_evict = victim.2 <= incoming;
+            if victim.2 == incoming {
+                crate::exec::probe_run("c06.victim_estimate_equals_incoming");
+            }
+            if was_evicted && !should_evict {
+                push("evicted-hotter", format!("victim {:?} has a higher estimate than the incoming key ({}) yet it was evicted", victim, incoming));
+            }
+            if !was_evicted && should_evict {
+                push("kept-colder-and-rejected", format!("victim {:?} does not exceed the incoming estimate {} yet it was kept", victim, incoming));
+            }
+            if was_evicted {
+                evicted += 1;
+                if let Some(cw) = charged.remove(&victim.0) {
+                    free += cw;
+                }
+                i += 1;
+            } else {
+                rejected_by_rule = true;
+            }
+        }
+        i += 1;
+    }
+    if evicted >= 2 {
+        crate::exec::probe_run("c06.multi_victim_eviction");
+    }
+    if evicted >= 1 && status == Some(St::RejNoSpace) {
+        crate::exec::probe_run("c06.partial_eviction_then_reject");
+    }
+    let expect = if rejected_by_rule {
+        St::RejNoSpace
+    } else if free >= w {
+        St::Accepted
+    } else {
+        St::RejNoSpace
+    };
+    if let Some(s) = status {
+        if s != expect {
+            push("result-mismatch", format!("decision events imply {:?} (free {} for weight {}, rejected by rule: {}) but the put was acknowledged {:?}", expect, free, w, rejected_by_rule, s));
+        }
+    }
+}
+
+// ------------------------------------------------------------------------------------------------
+// C14: naive, unpacked mirror of the TinyLFU sketch
+
+pub struct Mirror {
+    pub seeds: Vec<u64>,
+    pub counters: u64,
+    pub rows: Vec<Vec<u8>>,
+    pub bloom: bloomfilter::Bloom<u64>,
+    pub total: u64,
+    pub reset_at: u64,
+    /// per hash: accesses recorded in the current ageing window
+    pub window: BTreeMap<u64, u64>,
+    pub resets: u64,
+    pub batches: u64,
+    pub saturated: bool,
+    pub byte_values_seen: BTreeSet<u8>,
+}
+
+impl Mirror {
+    pub fn new(cache: &Cache, cfg_counters: u64) -> Mirror {
+        let sk = cache.verif_sketch();
+        Mirror {
+            seeds: sk.seeds.clone(),
+            counters: sk.total_counters,
+            rows: (0..sk.seeds.len()).map(|_| vec![0u8; sk.total_counters as usize]).collect(),
+            bloom: bloomfilter::Bloom::new_for_fp_rate(cfg_counters as usize, 0.01),
+            total: 0,
+            reset_at: sk.reset_counters_at,
+            window: BTreeMap::new(),
+            resets: 0,
+            batches: 0,
+            saturated: false,
+            byte_values_seen: BTreeSet::new(),
+        }
+    }
+    pub fn access(&mut self, h: u64) {
+        if !self.bloom.check(&h) {
+            self.bloom.set(&h);
+        } else {
+            for (i, seed) in self.seeds.iter().enumerate() {
+                let idx = ((h ^ seed) % self.counters) as usize;
+                if self.rows[i][idx] < 15 {
+                    self.rows[i][idx] += 1;
+                } else {
+                    self.saturated = true;
+                }
+            }
+        }
+        *self.window.entry(h).or_insert(0) += 1;
+        self.total += 1;
+        if self.total >= self.reset_at {
+            self.total = 0;
+            self.resets += 1;
+            for r in self.rows.iter_mut() {
+                for c in r.iter_mut() {
+                    *c >>= 1;
+                }
+            }
+            self.bloom.clear();
+            self.window.clear();
+        }
+    }
+    pub fn estimate(&self, h: u64) -> u8 {
+        let mut m = u8::MAX;
+        for (i, seed) in self.seeds.iter().enumerate() {
+            let idx = ((h ^ seed) % self.counters) as usize;
+            m = m.min(self.rows[i][idx]);
+        }
+        m + if self.bloom.check(&h) { 1 } else { 0 }
+    }
+    /// Compare with the cache's sketch (consumer idle). Returns mismatches as (class, message).
+    pub fn compare(&mut self, cache: &Cache, probes: &[u64]) -> Vec<(String, String)> {
+        let mut out = vec![];
+        let sk = cache.verif_sketch();
+        if sk.total_increments != self.total {
+            out.push(("aged-at-wrong-count".to_string(), format!("recorded accesses since last ageing: cache {}, mirror {} (threshold {})", sk.total_increments, self.total, self.reset_at)));
+        }
+        for (i, row) in sk.rows.iter().enumerate() {
+            for b in row {
+                self.byte_values_seen.insert(*b);
+            }
+            for j in 0..self.counters as usize {
+                let byte = row.get(j / 2).copied().unwrap_or(0);
+                let got = (byte >> ((j & 1) * 4)) & 0x0f;
+                if got != self.rows[i][j] {
+                    out.push((
+                        "mirror-mismatch".to_string(),
+                        format!("row {} counter {}: cache {}, mirror {} (packed byte {:#04x})", i, j, got, self.rows[i][j], byte),
+                    ));
+                    return out;
+                }
+            }
+        }
+        for h in probes {
+            let got = cache.verif_estimate(*h);
+            let exp = self.estimate(*h);
+            if got != exp {
+                out.push(("estimate-mismatch".to_string(), format!("estimate({}) = {}, mirror {}", h, got, exp)));
+            }
+            if got > 16 {
+                out.push(("wrapped".to_string(), format!("estimate({}) = {} exceeds the sketch maximum", h, got)));
+            }
+            let recorded = self.window.get(h).copied().unwrap_or(0);
+            if (got as u64) < recorded.min(15) {
+                out.push(("under-count".to_string(), format!("estimate({}) = {} but {} accesses were recorded in this ageing window", h, got, recorded)));
+            }
+            if cache.verif_door_keeper_has(*h) != self.bloom.check(h) {
+                out.push(("doorkeeper-mismatch".to_string(), format!("first-access filter disagrees for hash {}", h)));
+            }
+        }
+        out
     }
 }
